@@ -495,6 +495,25 @@ func (s *LSpec) genLexInputs(r *Rng, n int) [][]byte {
 					add(encodeRunes(cs[:cut]))
 				}
 			}
+			// after a rule that switches modes, continue with a match of a rule of every mode: the next
+			// token shows which mode is current
+			switches := false
+			for _, a := range ru.Acts {
+				if a.Kind == "push" || a.Kind == "pop" {
+					switches = true
+				}
+			}
+			if switches {
+				for _, m2 := range s.Modes {
+					for k := 0; k < 2; k++ {
+						cs := append([]int(nil), lead...)
+						s.sampleExpr(r, ru.Expr, &cs, 3)
+						s.sampleExpr(r, Pick(r, m2.Rules).Expr, &cs, 3)
+						s.sampleExpr(r, Pick(r, m2.Rules).Expr, &cs, 3)
+						add(encodeRunes(cs))
+					}
+				}
+			}
 		}
 	}
 	n += len(ins)
